@@ -56,6 +56,24 @@ def t_servertarget():
 	out.append(defn('CODE_MOVED_PERMANENTLY', 'N', N(MOVED_PERMANENTLY.code)))
 	out.append(defn('CODE_BAD_REQUEST_ST', 'N', N(BAD_REQUEST.code)))
 
+	# --- D55 probe: what does sanitize_request_uri_path hand to MOVED_PERMANENTLY?  AsFound: the decoded path text, which
+	#     RedirectStatus parses as a URI again; Repaired: a URI object that only carries the path (composed once)
+	def location(target):
+		try:
+			ServerStateMachine('http', 'localhost', 8090).parse(b'GET ' + target + b' HTTP/1.1\r\nHost: h\r\n\r\n')
+		except MOVED_PERMANENTLY as exc:
+			return exc.headers.get('Location')
+		except BAD_REQUEST:
+			return 400
+		return None
+	probe = (location(b'/x/../%2561'), location(b'/x/../a%3Fb'), location(b'/x/../%C3%A4'))
+	if probe == (u'/a', u'/a?b', 400):
+		out.append(defn('LOCATION_VARIANT', 'variant', 'AsFound'))
+	elif probe == (u'/%2561', u'/a%3Fb', u'/%C3%A4'):
+		out.append(defn('LOCATION_VARIANT', 'variant', 'Repaired'))
+	else:
+		raise ValueError('Location of the 301 for /x/../%%2561, /x/../a%%3Fb, /x/../%%C3%%A4 = %r: neither behaviour the model knows' % (probe,))
+
 	# --- Host.RE_HOSTNAME  ^([class]+)$  on text; the model works on UTF-8 octets
 	rx = Host.RE_HOSTNAME
 	out.append(defn('RE_HOSTNAME_PATTERN', 'bytes', hexlit(rx.pattern.encode('utf-8'))))
